@@ -114,6 +114,10 @@ func (sc *scenario) api() string {
 	hs := clsOrOk(sc.mode, blockchain.CheckBlockHeaderSanity(hdr, params.PowLimit, clock, blockchain.BFNone))
 	pow := clsOrOk(sc.mode, blockchain.CheckProofOfWork(blk, params.PowLimit))
 	hc := clsOrOk(sc.mode, blockchain.CheckBlockHeaderContext(hdr, hctx{sc.parent, sc.parent.height}, blockchain.BFNone, chain, true))
+	// with the checkpoint tests included (no checkpoints are configured) the answer must be the same
+	if hc2 := clsOrOk(sc.mode, blockchain.CheckBlockHeaderContext(hdr, hctx{sc.parent, sc.parent.height}, blockchain.BFNone, chain, false)); hc2 != hc {
+		hc += "/" + hc2
+	}
 
 	cutoff := hdr.Timestamp
 	if active(v.csvH, height) {
@@ -123,7 +127,7 @@ func (sc *scenario) api() string {
 	flags := sc.specFlags()
 	sigCache, hashCache := txscript.NewSigCache(100), txscript.NewHashCache(100)
 
-	var txS, fin, sl, ins, so, scr []string
+	var txS, fin, sl, ins, so, scr, p2 []string
 	var cost [4][]string
 	txs := blk.Transactions()
 	for i, tx := range txs {
@@ -168,6 +172,11 @@ func (sc *scenario) api() string {
 		} else {
 			ins = append(ins, fmt.Sprintf("fee:%d", fee))
 		}
+		if n, err := blockchain.CountP2SHSigOps(tx, isCb, view); err != nil {
+			p2 = append(p2, cls(err))
+		} else {
+			p2 = append(p2, fmt.Sprint(n))
+		}
 		for k := 0; k < 4; k++ {
 			n, err := blockchain.GetSigOpCost(tx, isCb, view, k&2 != 0, k&1 != 0)
 			if err != nil {
@@ -188,10 +197,11 @@ func (sc *scenario) api() string {
 		cbh = cls(blockchain.CheckSerializedHeight(txs[0], height))
 	}
 	wc = cls(blockchain.ValidateWitnessCommitment(blk))
-	return fmt.Sprintf("sanity=%s hs=%s pow=%s hc=%s tx=%s fin=%s sl=%s in=%s so=%s c00=%s c01=%s c10=%s c11=%s w=%d cbh=%s wc=%s sub=%d sc=%s",
+	return fmt.Sprintf("sanity=%s hs=%s pow=%s hc=%s tx=%s fin=%s sl=%s in=%s so=%s c00=%s c01=%s c10=%s c11=%s w=%d cbh=%s wc=%s sub=%d sc=%s p2=%s hv=%d",
 		sanity, hs, pow, hc, joinC(txS), joinC(fin), joinC(sl), joinC(ins), joinC(so),
 		joinC(cost[0]), joinC(cost[1]), joinC(cost[2]), joinC(cost[3]),
-		blockchain.GetBlockWeight(blk), cbh, wc, blockchain.CalcBlockSubsidy(height, params), joinC(scr))
+		blockchain.GetBlockWeight(blk), cbh, wc, blockchain.CalcBlockSubsidy(height, params), joinC(scr), joinC(p2),
+		b2i(blockchain.ShouldHaveSerializedBlockHeight(hdr)))
 }
 
 func hasNull(t *wire.MsgTx) bool {
